@@ -2786,10 +2786,18 @@ def run(ctx: Ctx, driver: Driver):
     for stream, (gen_cases, scenario_fn) in TRANSPORT_STREAMS.items():
         run_transport(ctx, gen_cases(ctx), stream, scenario_fn)
     transport_probes(ctx)
+    # the record loop of the CoAP event path against its Lean model (theorems C12_coap_event_*)
+    from harness.c12_coapevent import run_coapevent
+    run_coapevent(ctx, driver)
 
 
 def replay(ctx: Ctx, driver: Driver, case):
     n = len(ctx.violations)
+    if case.get("stream") == "coap-event-loop":
+        from harness.c12_coapevent import replay_coapevent, real
+        items, st = real(bytes.fromhex(case["payload"]))
+        replay_coapevent(ctx, driver, case)
+        return [f"handed over {[(i, v.hex()) for i, v in items]} ({st})"]
     if case.get("stream") == "overlap":
         run_overlap(ctx, [(case["events"], "replay", case.get("seed", 0))])
     elif case.get("stream") in TRANSPORT_STREAMS:
